@@ -13,26 +13,26 @@ HEAVY = ("ARRAY_SET", "ARRAY_SLICE", "ARRAY_RESERVE", "ARRAY_INSERT")
 def queries(tier):
     qs = []
     n0 = 3
-    combos_q = [(p, l) for p in (0, 1, 3) for l in (0, 1, 2)]
-    combos_t = [(p, l) for p in range(0, 6) for l in range(0, 4)]
+    combos_q = [(k, p, l) for k in (1, 3) for (p, l) in ((0, 1), (1, 2), (3, 1), (3, 0))]
+    combos_t = [(k, p, l) for k in range(0, 4) for p in range(0, 6) for l in range(0, 4)]
     for op in OPS:
         for (sh, cf) in ((0, 0), (1, 0), (0, 1), (1, 1)):
             if sh and op not in SH_OPS:
                 continue
-            if cf and (op, sh) not in (("SET", 0), ("ARRAY_SET", 0), ("ARRAY_SLICE", 0), ("DETACH", 1), ("ARRAY_SET", 1)):
+            if cf and (op, sh) not in (("SET", 0), ("ARRAY_SLICE", 0)) and not (tier == "thorough" and (op, sh) in (("ARRAY_SET", 0), ("ARRAY_SET", 1), ("DETACH", 1))):
                 continue
             base = "typed_%s%s%s" % (op.lower(), "_shared" if sh else "", "_ctorfail" if cf else "")
             d0 = {"OP": "OP_" + op, "SHARED": sh, "N0MAX": n0, "CTOR_FAIL": cf}
             variants = []
             if op in HEAVY:
-                for (p, l) in (combos_q if tier == "quick" else combos_t):
-                    if cf and (p, l) not in ((1, 2), (3, 1), (0, 2)):
+                for (k, p, l) in (combos_q if tier == "quick" else combos_t):
+                    if cf and (k, p, l) not in ((3, 1, 2), (1, 3, 1), (3, 0, 1)):
                         continue
-                    dd = dict(d0); dd.update({"POS_EL": p, "LEN_EL": l})
-                    variants.append(("%s_p%d_l%d" % (base, p, l), dd, "position %d, length %d elements (driver-side case split), 0..%d live elements symbolic" % (p, l, n0)))
+                    dd = dict(d0); dd.update({"POS_EL": p, "LEN_EL": l, "N0FIX": k})
+                    variants.append(("%s_n%d_p%d_l%d" % (base, k, p, l), dd, "%d live elements, position %d, length %d elements (driver-side case split); source/no-source, relative offset and traits mode symbolic" % (k, p, l)))
             else:
                 variants.append((base, d0, "0..%d live elements symbolic, element-aligned byte position 0..20 and length 0..12 symbolic" % n0))
-            if not cf and op in ("SET", "CUT", "INSERT", "ARRAY_SLICE", "ARRAY_INSERT"):
+            if not cf and op in ("SET", "CUT", "INSERT"):
                 dd = dict(d0); dd["ALIGNED"] = 0
                 variants.append((base + "_unaligned", dd, "0..%d live elements, byte position 0..20 / length 0..12 with at least one not element-aligned" % n0))
             for (nm, dd, bd) in variants:
